@@ -10,6 +10,13 @@ SNIPPETS = ["var x = 1", "def f(a, b) { return a + b }", "if (x) { y } else if (
 ESCAPES = ["\\x", "\\x4", "\\x41", "\\xZZ", "\\xFFFFFFFFFF", "\\u", "\\u12", "\\u1234", "\\uZZZZ", "\\uD800", "\\uDFFF", "\\U", "\\U0001F600", "\\UFFFFFFFF", "\\U0011FFFF", "\\0", "\\7", "\\377", "\\400",
            "\\777", "\\8", "\\9", "\\a", "\\b", "\\f", "\\n", "\\r", "\\t", "\\v", "\\'", "\\\"", "\\?", "\\\\", "\\$", "\\z", "\\", "${", "${}", "${1", "${${}}", "$", "\\${1}"]
 OPENERS = ["(", "[", "{", "fun(){", "if(true){", "[1,", "f(", "1+(", "x[", "\"${", "!", "-", "~", "++", "x?", "x?y:", "[x:", "def f(){", "try{", "class C{def m(){", "while(true){", "for(;;){", "[[", "(("]
+# right-recursive and chain constructs: every repetition is one more level of the descent (or must be shown not to be)
+CHAINS = ["x=", "x+=", "x-=", "x:=", "x*=", "x<<=", "a.", "a.b().", "a[0].", "f().", "a&&", "a||", "a+", "a-", "a*", "a<", "a==", "a<<", "a|", "a^", "a&", "-a+", "!a&&", "a?b:", "a?", "var x=", "auto x=", "global x=", "return ", "return x=",
+          "if(a){}else ", "if(a)1 else ", "if(a){}else if(b){}else ", "x[0]=", "[1:", "[1..", "a[", "f()(", "f(g(", "-(", "!(", "fun(){}(", "f(x=", "[x=", "\"${x=", "{x=", "x,", "a;", "x\n", "def f(){};", "`+`(", "a.`b`.", "x=\n", "a+\n",
+          "a + ", " x = ", "/**/x=", "x=//\n", "a[0]", "f()", "a.b", "[1]+", "a%", "a/", "a>=", "a!=", "a>>"]
+# constants fold: each step re-builds the text of the folded constant, so these chains cost quadratic time on the unchanged tree; keep them shorter
+CONST_CHAINS = ["\"s\"+", "'c'+", "1.5+", "1+", "1-", "1*", "1<", "1==", "1<<", "1|", "1^", "1&", "1&&", "1||"]
+WRAPS = [("", ""), ("{", "}"), ("def f(){", "}"), ("for(;;){", "}"), ("var y=", ""), ("f(", ")"), ("[", "]"), ("if(", "){}"), ("return ", "")]
 CLOSERS = [")", "]", "}", "}\"", "", " ", ";", "\n"]
 
 
@@ -69,7 +76,7 @@ def mutate(rng, b):
 
 
 def nesting(rng, big):
-    op = rng.choice(OPENERS)
+    op = rng.choice(OPENERS + CHAINS + CONST_CHAINS)
     n = rng.choice([1, 5, 100, 400, 511, 512, 513, 600, 2000] + ([20000, 100000] if big else []))
     close = {"(": ")", "[": "]", "{": "}", "fun(){": "}", "if(true){": "}", "[1,": "]", "f(": ")", "1+(": ")", "x[": "]", "\"${": "}\"", "[x:": "]", "def f(){": "}", "try{": "}",
              "class C{def m(){": "}}", "while(true){": "}", "for(;;){": "}", "[[": "]]", "((": "))", "x?": ":0", "x?y:": ""}.get(op, "")
@@ -84,10 +91,29 @@ def nesting(rng, big):
     return (mid + close * n).encode()                                   # only closers
 
 
+def deep_inputs(depth, rng=None):
+    """one deep repetition of every opener and chain construct, alone and inside a block (where the optimizer looks at the whole tree):
+    the real parser must stop these at the depth limit or handle them iteratively, and either is cheap. A recursion that escapes the
+    Depth_Counter, or one over a tree built by a loop, is not."""
+    out = []
+    for op in OPENERS + CHAINS:
+        out.append((op * depth + "a").encode())
+    for op in CHAINS:
+        if rng is None:
+            pre, post = WRAPS[1]
+        else:
+            pre, post = rng.choice(WRAPS[1:])
+        out.append((pre + op * depth + "a" + post).encode())
+    for op in CONST_CHAINS:
+        out.append((op * min(depth, 4000) + "1").encode())
+    return out
+
+
 def gen_inputs(rng, repo, n, big):
     base = corpus_files(repo)
     out = [b"", b")", b"\"\\UFFFFFFFF\"", b"\x00", b"\xff\xfe", b"#!x", b"1;;;;2", b"\"\\uZ\"", b"'", b"\"", b"/*", b"`", b"1 +", b"def", b"fun", b"class", b"${", b"\"${\"${\"${1}\"}\"}\""]
     out += base
+    out += deep_inputs(400000 if big else 150000, rng)
     out += afl_corpus(repo, 3000 if big else 300)
     while len(out) < n:
         k = rng.below(10)
